@@ -88,7 +88,7 @@ func genC10(e *emitter, tier string, seed int64) {
 	n3 := 3000
 	nr := 800
 	if tier == "thorough" {
-		n3, nr = 400000, 60000
+		n3, nr = 120000, 12000
 	}
 	for i := 0; i < n3; i++ {
 		emitC10q(e, []string{ops[rng.Intn(len(ops))], ops[rng.Intn(len(ops))], ops[rng.Intn(len(ops))]}, "seq3", i%2 == 1)
